@@ -1,0 +1,63 @@
+// Package verifhook carries the observation points used by external runtime
+// monitors. Without the `verif` build tag every function here is an empty,
+// inlinable no-op.
+package verifhook
+
+// Counter / yield sites.
+const (
+	PlanCollectInto = iota
+	PlanMergedSelectionsForType
+	PlanSelectionSet
+	OverlapFindConflict
+	OverlapFieldsAndFragment
+	OverlapBetweenFragments
+	OverlapGetFieldsAndFragmentNames
+	ValidatorFragmentSpreads
+	ValidatorVariableUsages
+	VisitorLoop
+	ValueFromAST
+	IsValidLiteralValue
+	LexerReadToken
+	ParserAdvance
+	EnumValueLookupBuild
+	EnumNameLookupBuild
+	SchemaPossibleTypeBuild
+	PlanAbstractAlternative
+	PlanAbstractAlternativeBuild
+	PlanCacheGetMiss
+	ObjectFieldsBuild
+	ObjectInterfacesBuild
+	InterfaceFieldsBuild
+	UnionTypesBuild
+	InputObjectFieldsBuild
+	NumSites
+)
+
+// SiteNames names the sites, index = site constant.
+var SiteNames = [NumSites]string{
+	"plan.collectInto",
+	"plan.planMergedSelectionsForType",
+	"plan.planSelectionSet",
+	"overlap.findConflict",
+	"overlap.collectConflictsBetweenFieldsAndFragment",
+	"overlap.collectConflictsBetweenFragments",
+	"overlap.getFieldsAndFragmentNames",
+	"validator.FragmentSpreads",
+	"validator.VariableUsages",
+	"visitor.loop",
+	"values.valueFromAST",
+	"rules.isValidLiteralValue",
+	"lexer.readToken",
+	"parser.advance",
+	"enum.valueLookup.build",
+	"enum.nameLookup.build",
+	"schema.possibleType.build",
+	"plan.abstractAlternative",
+	"plan.abstractAlternative.build",
+	"plancache.get.miss",
+	"object.fields.build",
+	"object.interfaces.build",
+	"interface.fields.build",
+	"union.types.build",
+	"inputobject.fields.build",
+}
